@@ -238,7 +238,7 @@ PROPS['C08'] = {
     'kani': [
         ('geo', 'c08.rs', r'^c08_k_(lex_cmp_and_least_index|swap_with_first_and_remove)$', 'complete', 'quick'),
         ('geo', 'c08.rs', r'^c08_k_partition_slice$', 'bounded', 'quick'),
-        ('geo', 'c08.rs', r'^c08_k_(quick|graham)_hull_(menu_|finding_|equidistant)', 'bounded', 'quick'),
+        ('geo', 'c08.rs', r'^c08_k_(quick|graham)_hull_(menu_|finding_|equidistant|large_i64)', 'bounded', 'quick'),
     ],
     'trusted': ['helpers only: lex_cmp / least_index / least_and_greatest_index (4 lattice points, complete), swap_with_first_and_remove (all indices of a 4-slice), partition_slice (slices <= 5, any threshold predicate)'],
     'undecided_clauses': [
